@@ -206,7 +206,15 @@ func solveAll(jobs []*job, timeoutS int, workers int, seed int, crossCheck bool)
 			for j := range ch {
 				q := j.g.queryFor(j.o)
 				id := fmt.Sprintf("q%d", j.idx)
-				st, solver, out, ms := solveQuery(q, dir, id, timeoutS, seed)
+				var st, solver, out string
+				var ms int64
+				if j.o.Clause == "$cover" {
+					// vacuity probe: a quick satisfiability check; "unknown" is acceptable
+					solver = solvers[0].name
+					st, out, ms = runSolver(context.Background(), solvers[0], q.Text(false), dir, id, 3)
+				} else {
+					st, solver, out, ms = solveQuery(q, dir, id, timeoutS, seed)
+				}
 				r := &Result{O: j.o, Solver: solver, Ms: ms, Output: truncate(out, 4000)}
 				switch st {
 				case "unsat":
